@@ -1,5 +1,5 @@
 #!/bin/sh
 # usage: tools/try-seed.sh <ID> <slug>   — files the sub-agent's output under seeded/<ID>-<slug>/ and runs the property check on a patched scratch copy
-ID="$1"; SLUG="$2"; D=/verif/seeded/$ID-$SLUG
-mkdir -p $D && cp /tmp/seedwt/$ID.out/patch.diff /tmp/seedwt/$ID.out/zz_seed_demo_test.go /tmp/seedwt/$ID.out/notes.txt $D/
+ID="$1"; SLUG="$2"; SRC="${3:-$1}"; D=/verif/seeded/$ID-$SLUG
+mkdir -p $D && cp /tmp/seedwt/$SRC.out/patch.diff /tmp/seedwt/$SRC.out/zz_seed_demo_test.go /tmp/seedwt/$SRC.out/notes.txt $D/
 /verif/tools/mutant.sh $D/patch.diff $ID 2>&1 | grep -v "^bounded .* ok$" | grep "VIOLATION\|KNOWN\|quick:\|exit=\|BOUNDED\|bounded\|ERROR" | cut -c1-260
